@@ -100,7 +100,7 @@ def rsa_cfgs(priv, level):
             for f in ("DER", "PEM"):
                 c.append({"format": f, "pkcs": 8, "passphrase": P0, "protection": prot, "prot_params": pp})
     for pw in PWS[1:]:
-        for prot in PW_PROTS:
+        for prot in (PROTS if level == "full+" else PW_PROTS):
             c.append({"format": "DER", "pkcs": 8, "passphrase": pw, "protection": prot, "prot_params": pps_for(prot, "cover")[0]})
     c.append({"format": "PEM", "pkcs": 8, "passphrase": P0, "protection": "scryptAndAES128-CBC"})   # scrypt defaults (N = 16384)
     return c
@@ -126,7 +126,7 @@ def dsa_cfgs(priv, level):
             c.append({"format": f, "passphrase": P0, "protection": prot})
     c.append({"format": "DER", "pkcs8": True, "passphrase": P0, "protection": PW_PROTS[2]})
     for pw in PWS[1:]:
-        for prot in PW_PROTS[:3]:
+        for prot in ([p for p in PROTS if not p.startswith("scrypt")] + ["scryptAndAES128-GCM"] if level == "full+" else PW_PROTS[:3]):
             c.append({"format": "DER", "passphrase": pw, "protection": prot})
     return c
 
@@ -160,7 +160,7 @@ def ecc_cfgs(curve, priv, level):
             for f in ("DER", "PEM"):
                 c.append({"format": f, "passphrase": P0, "protection": prot, "prot_params": pp})
     for pw in PWS[1:]:
-        for prot in PW_PROTS:
+        for prot in (PROTS if level == "full+" else PW_PROTS):
             c.append({"format": "DER", "passphrase": pw, "protection": prot, "prot_params": pps_for(prot, "cover")[0]})
     c.append({"format": "DER", "passphrase": P0, "protection": "PBKDF2WithHMAC-SHA256AndAES128-CBC"})   # default count 1000
     c.append({"format": "PEM", "use_pkcs8": True, "passphrase": P0, "protection": "scryptAndAES128-GCM"})  # scrypt defaults
@@ -665,7 +665,7 @@ def rt_worker(shard):
     for i in range(lo, min(hi, len(cfgs))):
         kw = cfgs[i]
         tape = "%d|%s|%s|%d" % (SEED, name, "priv" if priv else "pub", i)
-        rt_case(kd, priv, kw, tape, acc, size=1000 * kidx + i)
+        rt_case(kd, priv, kw, tape, acc, size=(2 * kidx + (0 if priv else 1)) * 1000 + i)
     if (name, priv, lo) in SAMPLE_FROM and _LAST[0]:
         acc.sample(_LAST[0])
     return acc
@@ -824,22 +824,31 @@ def eq_worker(shard):
     objs = eq_objects(_KEYS, quick)
     built = []
     for o in objs:
+        derived = o["variant"] in ("pk", "imp", "swap")       # produced by a library operation other than construct
         try:
             k = eq_build(o)
-            if KS.lib_comps(k) != KS.expected_comps(o["kd"], o["priv"]) and o["variant"] != "swap":
-                acc.error("equality object %s does not have the intended components" % _odesc(o))
+            if o["variant"] != "swap" and KS.lib_comps(k) != KS.expected_comps(o["kd"], o["priv"]):
+                if not derived:
+                    acc.error("equality object %s does not have the intended components" % _odesc(o))
+                else:
+                    acc.observe("equality object of variant %s does not have the components of its source key (judged in part rt); skipped" % o["variant"])
+                k = None
             built.append(k)
         except Exception as e:  # noqa
-            acc.error("cannot build equality object %s: %r" % (_odesc(o), e))
+            if not derived:
+                acc.error("cannot build equality object %s: %r" % (_odesc(o), e))
+            else:
+                acc.observe("equality object of variant %s cannot be built (%s; judged in part rt); skipped" % (o["variant"], type(e).__name__))
             built.append(None)
     n = len(objs)
     for i in rows:
+        for j in range(n):
+            if built[i] is None or built[j] is None:
+                acc.count("eq_pairs_skipped")
+                continue
+            eq_pair(objs[i], objs[j], built[i], built[j], acc, size=i * n + j)
         if built[i] is None:
             continue
-        for j in range(n):
-            if built[j] is None:
-                continue
-            eq_pair(objs[i], objs[j], built[i], built[j], acc, size=i + j)
         # a non-key operand: observation only
         for other in (None, 5, b"x"):
             for op in ("==", "!="):
@@ -880,6 +889,8 @@ def run(ctx):
     ctx.coverage_extra["phase_wall_s"] = phases
     # ---- rt ----------------------------------------------------------------------------
     primary = {"rsa1024-e65537", "dsa1024-160", "p256-x00", "ed25519-y00-xodd", "curve25519-u00"}
+    if not q:
+        primary |= {"rsa1025-e3", "dsa2048-224", "p521-y00", "ed448-y00-xodd", "curve448-u00"}
     shards = []
     nconf = {}
     for kidx, (name, kd) in enumerate(_KEYS.items()):
@@ -939,8 +950,8 @@ def run(ctx):
     ctx.require(n.get("eq_pairs_expected_equal", 0) >= nrows and n.get("eq_pairs_expected_unequal", 0) >= nrows * 10
                 and n.get("eq_pairs_expected_either", 0) >= 2,
                 "equality matrix expectations: %d equal, %d unequal" % (n.get("eq_pairs_expected_equal", 0), n.get("eq_pairs_expected_unequal", 0)))
-    ctx.require(n.get("eq_pairs_expected_equal", 0) + n.get("eq_pairs_expected_unequal", 0) + n.get("eq_pairs_expected_either", 0) == nrows * nrows,
-                "equality matrix incomplete")
+    ctx.require(n.get("eq_pairs_expected_equal", 0) + n.get("eq_pairs_expected_unequal", 0) + n.get("eq_pairs_expected_either", 0)
+                + n.get("eq_pairs_skipped", 0) == nrows * nrows, "equality matrix incomplete")
     rels = {c[3] for c in cl if c[0] == "eq"}
     ctx.require({"same", "different", "privacy", "cross-type", "either"} <= rels, "equality relations seen: %s" % sorted(rels))
     ctx.require(len(cl) >= 300, "fewer than 300 behaviour classes observed (%d)" % len(cl))
@@ -955,7 +966,9 @@ def run(ctx):
             "configurations_per_key": {"%s %s [%s]" % (k[0], "private" if k[1] else "public", k[2]): v for k, v in sorted(nconf.items(), key=str)},
             "levels": ("quick: full product (84 protections x 2 prot_params x DER/PEM) on %s, cover list on the other keys"
                        % ", ".join(sorted(primary))) if q else
-                      "thorough: full product on every key (3 prot_params variants on the primary keys; cover list on 2048-bit RSA)",
+                      ("thorough: full product (84 protections x 2 prot_params x DER/PEM) on every key; on %s in addition a third prot_params "
+                       "variant (16-byte salt; scrypt r=1, p=2) and all 5 passphrases x all 84 protections; cover list on 2048-bit RSA"
+                       % ", ".join(sorted(primary))),
             "passphrases": [short(p, 20) if not isinstance(p, str) else p for p in PWS],
             "wrong_passphrases": "passphrase + 'x', passphrase without its last octet, none",
             "equality_objects": nrows, "equality_pairs": nrows * nrows,
